@@ -183,3 +183,133 @@ func c14Channels(c *Ctx) *RuleResult {
 	}
 	return r
 }
+
+// c14PileImpl: the deadlock-avoidance primitive itself blocks only while holding nothing.
+func c14PileImpl(c *Ctx) *RuleResult {
+	r := &RuleResult{Rule: "C14.pile-impl", Floor: 1,
+		Doc: "LockPile's contract, which C14.pile and C14.order rely on (acquisitions through a pile are try-locks with back-off): inside pkg/sync a blocking Lock() on a pile member happens only while no other member is held — the call is not under a guard saying that the count of acquired locks is positive; every path from inside such a guard's branch to the call first passes the loop that unlocks the acquired members; and the call is followed on all paths by setting that count to 1"}
+	p := c.P
+	for _, u := range p.UnitsIn("pkg/sync") {
+		info := u.Info()
+		g := NewFuncCFG(info, u.Decl.Body)
+		ast.Inspect(u.Decl.Body, func(n ast.Node) bool {
+			call, ok := n.(*ast.CallExpr)
+			if !ok {
+				return true
+			}
+			sel, ok := ast.Unparen(call.Fun).(*ast.SelectorExpr)
+			if !ok || sel.Sel.Name != "Lock" || len(call.Args) != 0 {
+				return true
+			}
+			tv, ok := info.Types[sel.X]
+			if !ok || !types.IsInterface(tv.Type) {
+				return true // not an acquisition of a pile member (TryLocker)
+			}
+			construct := constructOf(u, "blocking "+exprStr(call.Fun))
+			positive := func(gd Guard) (string, bool) {
+				be, ok := ast.Unparen(gd.Cond).(*ast.BinaryExpr)
+				if !ok || !gd.Pos {
+					return "", false
+				}
+				id, ok := ast.Unparen(be.X).(*ast.Ident)
+				if !ok {
+					return "", false
+				}
+				if v, ok := info.Uses[id].(*types.Var); !ok || !isIntType(v.Type()) {
+					return "", false
+				}
+				y := exprStr(be.Y)
+				if (be.Op == token.GTR && y == "0") || (be.Op == token.NEQ && y == "0") || (be.Op == token.GEQ && y == "1") {
+					return id.Name, true
+				}
+				return "", false
+			}
+			bad := ""
+			for _, gd := range flattenGuards(GuardsOf(info, u.Decl.Body, call)) {
+				if name, ok := positive(gd); ok {
+					bad = "the blocking acquisition is made under the condition " + gd.String() + ", i.e. while " + name + " other locks of the pile are held"
+				}
+			}
+			isUnlock := func(m ast.Node) bool {
+				uc, ok := m.(*ast.CallExpr)
+				if !ok {
+					return false
+				}
+				us, ok := ast.Unparen(uc.Fun).(*ast.SelectorExpr)
+				return ok && us.Sel.Name == "Unlock" && len(uc.Args) == 0
+			}
+			// a loop `for i := 0; i < count; i++ { ...Unlock() }` releases every acquired member: its
+			// condition node stands for the whole loop (it runs at least once when count > 0)
+			unlockLoops := map[ast.Node]bool{}
+			ast.Inspect(u.Decl.Body, func(m ast.Node) bool {
+				if fs, ok := m.(*ast.ForStmt); ok && fs.Cond != nil {
+					has := false
+					ast.Inspect(fs.Body, func(k ast.Node) bool {
+						if isUnlock(k) {
+							has = true
+						}
+						return !has
+					})
+					if has {
+						unlockLoops[fs.Cond] = true
+					}
+				}
+				return true
+			})
+			ast.Inspect(u.Decl.Body, func(m ast.Node) bool {
+				ifs, ok := m.(*ast.IfStmt)
+				if !ok || len(ifs.Body.List) == 0 || bad != "" {
+					return true
+				}
+				isPos := false
+				for _, gd := range flattenGuards([]Guard{{ifs.Cond, true}}) {
+					if _, ok := positive(gd); ok {
+						isPos = true
+					}
+				}
+				if !isPos {
+					return true
+				}
+				first := g.Anchor(ifs.Body.List[0])
+				if first == nil {
+					return true
+				}
+				if _, in := g.Locate(first); !in {
+					return true
+				}
+				// the first node itself may be the call / contain an unlock
+				// (re-testing the condition establishes the count afresh: only paths since the last test count)
+				if reach, _ := g.ReachableWithout(first, call, func(k ast.Node) bool { return isUnlock(k) || k == ast.Node(ifs.Cond) || unlockLoops[k] }); reach {
+					bad = "a path on which other locks of the pile are held (" + exprStr(ifs.Cond) + ") reaches the blocking acquisition without releasing them first"
+				}
+				return true
+			})
+			if bad == "" {
+				// followed by <count> = 1
+				okSet := false
+				ast.Inspect(u.Decl.Body, func(m ast.Node) bool {
+					as, ok := m.(*ast.AssignStmt)
+					if ok && len(as.Lhs) == 1 && len(as.Rhs) == 1 && exprStr(as.Rhs[0]) == "1" && as.Tok == token.ASSIGN && g.PostDominates(as, call) {
+						okSet = true
+					}
+					return true
+				})
+				if !okSet {
+					bad = "after the blocking acquisition the number of acquired locks is not reset to one on every path"
+				}
+			}
+			if bad == "" {
+				r.ok(construct, posOf(p, call), "blocks only while holding nothing")
+			} else {
+				r.bad(c.Prop, construct, posOf(p, call), bad+": two threads that each hold one lock and block on the other's deadlock (renames in opposite directions, lookup versus rename)")
+			}
+			return true
+		})
+	}
+	return r
+}
+
+func isIntType(t types.Type) bool {
+	b, ok := t.Underlying().(*types.Basic)
+	return ok && b.Info()&types.IsInteger != 0
+}
